@@ -27,6 +27,7 @@ import (
 	"github.com/feichai0017/NoKV/pb"
 	"github.com/feichai0017/NoKV/percolator"
 	rkv "github.com/feichai0017/NoKV/raftstore/kv"
+	"github.com/feichai0017/NoKV/verifhook"
 
 	"verif/sim"
 )
@@ -89,10 +90,12 @@ func (t *gTxn) resolveOp(keys []int, commit bool) sim.Op {
 func (t *gTxn) ctsOp(r *sim.Rand, key int, txns []*gTxn) sim.Op {
 	var cur uint64
 	if t.ttl == 0 {
-		cur = uint64(r.Pick64(int64(t.start), int64(t.start)+5, 1000))
+		cur = uint64(r.Pick64(int64(t.start), int64(t.start)+5, 1000, int64(t.start)-1, 1))
 	} else {
+		// including callers whose timestamp lies below the lock's start timestamp
+		// (an older transaction that met the lock of a newer one)
 		e := int64(t.start + t.ttl)
-		cur = uint64(r.Pick64(int64(t.start), e-1, e, e, e+1, 1000))
+		cur = uint64(r.Pick64(int64(t.start), e-1, e, e, e+1, 1000, int64(t.start)-1, int64(t.start)/2, 1))
 	}
 	var caller uint64
 	switch r.Intn(6) {
@@ -655,6 +658,60 @@ func (p *perco) classifyCommit(ki int, start, commit uint64) string {
 	return "no_lock"
 }
 
+// watchCommit installs, for the duration of one commit (or resolve-with-commit)
+// request, a reader that runs between the individual database writes of the
+// request (yield site db.write.acked on the calling goroutine): a key that the
+// transaction holds locked must, at every such moment, either still answer
+// "locked" or already show the value being committed - never the state before
+// the transaction (lock gone, commit record not there yet). Returns the restore func.
+func (p *perco) watchCommit(keys []int, start, commit uint64) func() {
+	type watched struct {
+		ki   int
+		lock pLock
+	}
+	var ws []watched
+	for _, ki := range keys {
+		if l := p.m[ki].lock; l != nil && l.start == start && l.kind != pb.Mutation_Lock {
+			ws = append(ws, watched{ki, *l})
+		}
+	}
+	prev := verifhook.YieldFn
+	if len(ws) == 0 || prev == nil {
+		return func() {}
+	}
+	busy, n := false, 0
+	verifhook.YieldFn = func(owner any, site string) {
+		if site == "db.write.acked" && !busy && n < 12 {
+			busy = true
+			n++
+			for _, wk := range ws {
+				k := p.m[wk.ki]
+				resp, err := rkv.Apply(p.w.DB, &pb.RaftCmdRequest{Header: &pb.CmdHeader{RegionId: 1}, Requests: []*pb.Request{
+					{CmdType: pb.CmdType_CMD_GET, Cmd: &pb.Request_Get{Get: &pb.GetRequest{Key: []byte(k.name), Version: commit}}}}})
+				if err != nil || len(resp.GetResponses()) != 1 {
+					continue
+				}
+				got := getView(resp.Responses[0].GetGet())
+				p.res.Checks++
+				p.res.Probes["read_between_the_writes_of_a_commit"]++
+				okNew := (wk.lock.kind == pb.Mutation_Put && got.found && bytes.Equal(got.val, wk.lock.val)) || (wk.lock.kind == pb.Mutation_Delete && !got.found && !got.blocked)
+				if got.blocked || okNew {
+					continue
+				}
+				// same facts as for ordinary read mismatches (the known read-path defects
+				// - a lower version written later, an ingest-buffer tie - apply here too)
+				sig := cloneSig(p.readFacts(wk.ki, start), "saw", map[bool]string{true: "older_value", false: "not_found"}[got.found])
+				p.reportOnce("C17", "read_inside_commit", k.name, got.String(), sig,
+					"get %q at %d between the database writes of commit(start=%d, commit=%d) returned %s: neither the lock nor the committed value (%s); copies default: %s write: %s lock: %s",
+					k.name, commit, start, commit, got, &wk.lock, DescribeCopies(p.w, cfs[0], []byte(k.name)), DescribeCopies(p.w, cfs[2], []byte(k.name)), DescribeCopies(p.w, cfs[1], []byte(k.name)))
+			}
+			busy = false
+		}
+		prev(owner, site)
+	}
+	return func() { verifhook.YieldFn = prev }
+}
+
 func (p *perco) doCommit(op sim.Op) {
 	start, commit := uint64(op.A), uint64(op.B)
 	keys := p.parseKeys(op.S)
@@ -662,8 +719,10 @@ func (p *perco) doCommit(op sim.Op) {
 		return
 	}
 	p.seeTs(start, commit)
+	unwatch := p.watchCommit(keys, start, commit)
 	resp, err := p.apply(&pb.Request{CmdType: pb.CmdType_CMD_COMMIT, Cmd: &pb.Request_Commit{Commit: &pb.CommitRequest{
 		Keys: p.names(keys), StartVersion: start, CommitVersion: commit}}})
+	unwatch()
 	if err != nil || len(resp.GetResponses()) != 1 {
 		p.requestFailed("commit", err)
 		return
@@ -748,8 +807,13 @@ func (p *perco) doResolve(op sim.Op) {
 		return
 	}
 	p.seeTs(start, commit)
+	unwatch := func() {}
+	if commit != 0 {
+		unwatch = p.watchCommit(keys, start, commit)
+	}
 	resp, err := p.apply(&pb.Request{CmdType: pb.CmdType_CMD_RESOLVE_LOCK, Cmd: &pb.Request_ResolveLock{ResolveLock: &pb.ResolveLockRequest{
 		Keys: p.names(keys), StartVersion: start, CommitVersion: commit}}})
+	unwatch()
 	if err != nil || len(resp.GetResponses()) != 1 {
 		p.requestFailed("resolve", err)
 		return
